@@ -46,7 +46,7 @@ def check(run, repo):
     owner_ts, fn_ts = repo.find_method(ci, 'to_string')
     owner_fs, fn_fs = repo.find_method(ci, 'from_string')
     n = 0
-    delims = [('+', '='), ('+', '<=>'), ('.', '>>'), (' + ', ' = '), ('+', ' <=> ')]
+    delims = [('+', '='), ('+', '<=>'), ('.', '>>'), (' + ', ' = '), ('+', ' <=> '), (' & ', '->')]
     stoichs = [
         ([1, 1], [1], None),
         ([2, 1], [3], [1]),
